@@ -124,3 +124,66 @@ Proof.
   eapply Forall_impl; [|apply sem_loop_origin]. intros a [Ha|(k & Hk & Ha)]; [left; exact Ha|].
   right. exists k. split; [exact Hk|]. split; [apply P; exact Hk|exact Ha].
 Qed.
+
+(* ---- tag and tag-value tokens sit on the line of their comment, behind its semicolon ---- *)
+Definition in_comment (k : token) (x : tok) : Prop :=
+  is_ty (tk_type k) TComment = true /\ t_line x = tp_line (tk_pos k) - 1 /\ tp_col (tk_pos k) - 1 < t_col x.
+
+Lemma tag_tokens_parts_place : forall parts text bl bc ss,
+  Forall (fun x => t_line x = bl /\ bc < t_col x) (tag_tokens_parts parts text bl bc ss).
+Proof.
+  induction parts as [|part rest IH]; intros text bl bc ss; cbn [tag_tokens_parts]; [constructor|].
+  cbv zeta.
+  destruct (index_byte 58 (trim_space_u part)) as [ci|]; [|apply IH].
+  destruct (beq _ [] || negb (sem_valid_tag_name _)); [apply IH|].
+  destruct (index_sub _ (skipn ss text)) as [ts|]; [|apply IH].
+  assert (T : forall u len ty, (fun x => t_line x = bl /\ bc < t_col x) (mkTok bl (bc + 1 + u) len ty 0)).
+  { intros u len ty. cbn [t_line t_col]. split; [reflexivity|lia]. }
+  destruct (trim_space_u (skipn (S ci) (trim_space_u part))) as [|v0 vr] eqn:Ev.
+  - constructor; [apply T|apply IH].
+  - destruct (index_sub (v0 :: vr) _) as [vs|].
+    + constructor; [apply T|]. constructor; [apply T|apply IH].
+    + constructor; [apply T|apply IH].
+Qed.
+
+Lemma sem_step_place st t : Forall (fun x => starts_at t x \/ in_comment t x) (snd (sem_step st t)).
+Proof.
+  unfold sem_step. cbv zeta.
+  match goal with |- context [match map_token_type ?ty with _ => _ end] => destruct (map_token_type ty) as [ty0|] end;
+    [|cbn [snd]; constructor].
+  match goal with |- context [if ?c then (2, ?a) else (ty0, ?b)] => destruct c end;
+  (destruct (is_ty (tk_type t) TComment) eqn:Ec;
+   [assert (TF : Forall (fun x => starts_at t x \/ in_comment t x) (tag_tokens t));
+    [unfold tag_tokens; destruct (index_byte 58 (tk_val t)); [|constructor];
+     eapply Forall_impl; [|apply tag_tokens_parts_place]; intros a [A B]; right; unfold in_comment;
+     split; [exact Ec|split; [exact A|exact B]]|];
+    destruct (tag_tokens t) as [|x xs]; [|cbn [snd]; exact TF]|];
+   match goal with |- context [if ?l =? 0 then _ else _] => destruct (l =? 0) end; cbn [snd];
+   match goal with
+   | |- Forall _ [] => constructor
+   | |- Forall _ [_] => constructor; [left; unfold starts_at; cbn [t_line t_col]; split; reflexivity|constructor]
+   end).
+Qed.
+
+Lemma sem_loop_place : forall l st,
+  Forall (fun x => exists k, In k l /\ (starts_at k x \/ in_comment k x)) (sem_loop st l).
+Proof.
+  induction l as [|t r IH]; intro st; cbn [sem_loop]; [constructor|].
+  destruct (is_ty (tk_type t) TEOF); [constructor|].
+  pose proof (sem_step_place st t) as F. destruct (sem_step st t) as [st' out]. cbn [snd] in F.
+  apply Forall_app. split.
+  - eapply Forall_impl; [|exact F]. intros a Ha. exists t. split; [left; reflexivity|exact Ha].
+  - eapply Forall_impl; [|apply IH]. intros a (k & Hk & Ha). exists k. split; [right; exact Hk|exact Ha].
+Qed.
+
+(* for every byte string: every semantic token sits on the line of a token of the lexer (whose start is
+   a place of the text, tok_ok), at its start -- or, for the tag and tag-value tokens cut out of a
+   comment, on the comment's line behind its semicolon *)
+Theorem sem_tokens_place text toks : lex text = Some toks ->
+  Forall (fun x => exists k, In k toks /\ tok_ok text k /\ (starts_at k x \/ in_comment k x)) (sem_tokens text).
+Proof.
+  intro H. unfold sem_tokens. rewrite H. pose proof (lex_positions text toks H) as P.
+  rewrite Forall_forall in P.
+  eapply Forall_impl; [|apply sem_loop_place]. intros a (k & Hk & Ha).
+  exists k. split; [exact Hk|]. split; [apply P; exact Hk|exact Ha].
+Qed.
